@@ -114,6 +114,7 @@ package flood
 //@ note C15: the hop limit read by HandleRouteAdvertise is the one the flooder was built with
 
 //@ ghost var c14fwd int
+//@ ghost var c06fresh int
 
 //@ func (*Flooder).HandleRouteAdvertise
 //@ prop C11 C13 C14 C15
@@ -196,7 +197,7 @@ package flood
 
 //@ func (*Flooder).AnnounceLocalRoutes
 //@ prop C06 C11 C13 C14
-//@ modifies *
+//@ modifies *, c06fresh
 //@ loop 0 invariant -1 <= rangeindex && rangeindex < len(localRoutes) && len(routes) == rangeindex + 1
 //@ loop 0 invariant forall i in 0..rangeindex+1: routes[i].Metric == localRoutes[i].Metric && routes[i].Prefix == localRoutes[i].Network.IP && routes[i].PrefixLength == maskOnes(localRoutes[i].Network.Mask) % 256 && routes[i].AddressFamily == ite(maskBits(localRoutes[i].Network.Mask) == 128, 2, 1)
 //@ loop 1 invariant -1 <= rangeindex && rangeindex < len(localDomainRoutes) && len(routes) == len(localRoutes) + rangeindex + 1
@@ -213,19 +214,30 @@ package flood
 //@ at[C14] call (*RouteAdvertise).Encode assert $0.OriginAgent == f.localID && $0.Sequence == seq
 //@ at[C11,C13] call (*RouteAdvertise).Encode assert len($0.SeenBy) == 1 && $0.SeenBy[0] == f.localID && $0.EncPath != nil && !$0.EncPath.Encrypted && $0.EncPath.Data == pathBytes
 //@ note an origin announces with path [self] and seen-by [self], its own identity and a sequence number freshly taken from its own counter for each message
+//@ ghostinit c06fresh = 0
+//@ after call IncrementSequence set c06fresh = 1
+//@ at[C06] call (*RouteAdvertise).Encode assert c06fresh == 1
+//@ after call (*RouteAdvertise).Encode set c06fresh = 0
+//@ loop 3 invariant c06fresh == 0
+//@ note C06: every message gets a sequence number taken after the previous message was built: two groups of one announcement never share an (origin, sequence) key, under which a receiver would drop the second as already seen
 
 //@ func (*Flooder).WithdrawLocalRoutes
 //@ prop C06
-//@ modifies *
+//@ modifies *, c06fresh
 //@ loop 0 invariant -1 <= rangeindex && rangeindex < len(localRoutes) && len(routes) == rangeindex + 1
 //@ loop 0 invariant forall i in 0..rangeindex+1: routes[i].Metric == localRoutes[i].Metric && routes[i].Prefix == localRoutes[i].Network.IP && routes[i].PrefixLength == maskOnes(localRoutes[i].Network.Mask) % 256 && routes[i].AddressFamily == ite(maskBits(localRoutes[i].Network.Mask) == 128, 2, 1)
 //@ loop 1 invariant 0 <= start && start % 255 == 0 && len(routes) == len(localRoutes)
 //@ at call (*RouteWithdraw).Encode assert 1 <= len($0.Routes) && len($0.Routes) <= 255 && len($0.Routes) == ite(len(routes) - start < 255, len(routes) - start, 255)
 //@ at call (*RouteWithdraw).Encode assert base($0.Routes) == base(routes) && offset($0.Routes) == offset(routes) + start && $0.OriginAgent == f.localID
+//@ ghostinit c06fresh = 0
+//@ after call IncrementSequence set c06fresh = 1
+//@ at call (*RouteWithdraw).Encode assert c06fresh == 1
+//@ after call (*RouteWithdraw).Encode set c06fresh = 0
+//@ loop 1 invariant c06fresh == 0
 
 //@ func (*Flooder).SendFullTable
 //@ prop C06 C14 C13
-//@ modifies *
+//@ modifies *, c06fresh
 //@ after call IncrementSequence let seq = $ret
 //@ loop 13 invariant 0 <= start && start % 255 == 0
 //@ at[C06] call (*RouteAdvertise).Encode assert 1 <= len($0.Routes) && len($0.Routes) <= 255 && len($0.Routes) == ite(len(routes) - start < 255, len(routes) - start, 255)
@@ -244,6 +256,12 @@ package flood
 //@ loop 13 invariant forall i in 0..len(cidrRoutes): routes[i].Metric == cidrRoutes[i].Metric
 //@ at[C13] call (*RouteAdvertise).Encode assert $0.Path == path && len(path) >= 1 && path[0] == f.localID && $0.EncPath == nil
 //@ at[C13] call (*RouteAdvertise).Encode assert forall i in 0..len(cidrRoutes): routes[i].Metric == cidrRoutes[i].Metric
+//@ ghostinit c06fresh = 0
+//@ after call IncrementSequence set c06fresh = 1
+//@ at[C06] call (*RouteAdvertise).Encode assert c06fresh == 1
+//@ after call (*RouteAdvertise).Encode set c06fresh = 0
+//@ loop 8 invariant c06fresh == 0
+//@ loop 13 invariant c06fresh == 0
 //@ note C13 for replays: every replayed CIDR route is sent with exactly its stored metric (the list sent is the concatenation of the origin's CIDR, agent-presence, forward and domain routes, window by window; the element-wise facts for the agent-presence, forward and domain parts, whose positions are sums of lengths, are not stated: this function works on maps keyed by 16-byte agent ids, which cvc5 rejects, and the two z3 versions do not discharge those clauses reliably), under a path that starts with this agent; that the rest of the path is the stored path of THAT route (and not of the group's first route) is not stated - see DESIGN 7.3
 
 // ---- C11: withdrawals take the same seen-cache / seen-by gate; the seen cache keeps what it must ----
